@@ -88,6 +88,26 @@ fn check_forest(sp: &Sprite, what: &str) -> (u64, Option<Violation>) {
         }
         leaves += 2;
     }
+    // the same layers reached through the iterator and its adaptors (skip / nth / step_by / last / rev if offered)
+    if n <= 4096 {
+        let direct: Vec<(u32, Option<u32>, bool)> = (0..n).map(|i| { let l = ase.layer(i as u32); (l.id(), l.parent().map(|p| p.id()), l.is_visible()) }).collect();
+        let via = |it: &mut dyn Iterator<Item = asefile::Layer>| -> Vec<(u32, Option<u32>, bool)> { it.map(|l| (l.id(), l.parent().map(|p| p.id()), l.is_visible())).collect() };
+        let k = (n / 2).max(1).min(n - 1);
+        let checks: Vec<(&str, Vec<(u32, Option<u32>, bool)>, Vec<(u32, Option<u32>, bool)>)> = vec![
+            ("layers()", via(&mut ase.layers()), direct.clone()),
+            ("layers().skip(k)", via(&mut ase.layers().skip(k)), direct[k..].to_vec()),
+            ("layers().step_by(2)", via(&mut ase.layers().step_by(2)), direct.iter().cloned().step_by(2).collect()),
+            ("layers().nth(k) then the rest", { let mut it = ase.layers(); let first = it.nth(k); let mut v: Vec<_> = first.into_iter().map(|l| (l.id(), l.parent().map(|p| p.id()), l.is_visible())).collect(); v.extend(via(&mut it)); v }, direct[k..].to_vec()),
+            ("layers().last()", ase.layers().last().into_iter().map(|l| (l.id(), l.parent().map(|p| p.id()), l.is_visible())).collect(), direct[n - 1..].to_vec()),
+        ];
+        for (name, got, want) in checks {
+            if got != want {
+                let at = got.iter().zip(want.iter()).position(|(a, b)| a != b).unwrap_or(got.len().min(want.len()));
+                return (leaves, mk("layers-iterator", format!("{} (k = {}) differs from layer(i) at position {}: {:?} vs {:?}", name, k, at, got.get(at), want.get(at))));
+            }
+            leaves += 1;
+        }
+    }
     let img = ase.frame(0).image();
     let width = n.min(4096);
     if img.width() as usize != width || img.height() != 1 {
@@ -287,7 +307,11 @@ pub fn run(ctx: &Ctx) -> i32 {
             levels.push(rng.range(0, max as i64) as u16);
         }
         let (w, h) = (rng.range(1, 4) as u16, rng.range(1, 3) as u16);
-        let mut sp = Sprite::blank(w, h, Fmt::Rgba, 1);
+        // every third case: two frames, all cels in the second one, and the layer chunks of the upper part of the
+        // forest only arrive at the start of that second frame (layer chunks may come in any frame)
+        let late_layers = i % 3 == 2 && n >= 2;
+        let cel_frame: u16 = if late_layers { 1 } else { 0 };
+        let mut sp = Sprite::blank(w, h, Fmt::Rgba, if late_layers { 2 } else { 1 });
         for k in 0..n {
             let has_child = k + 1 < n && levels[k + 1] > levels[k];
             let mut l = LayerM::image(&format!("l{}", k));
@@ -306,14 +330,36 @@ pub fn run(ctx: &Ctx) -> i32 {
                 if rng.chance(1, 4) {
                     l.opacity = rng.opacity();
                 }
-                sp.cels.insert((0, k as u16), CelM { x, y, opacity: if rng.chance(1, 4) { rng.opacity() } else { 255 }, content: CelContentM::Image { w: cw, h: ch, pixels: px }, ud: None });
+                sp.cels.insert((cel_frame, k as u16), CelM { x, y, opacity: if rng.chance(1, 4) { rng.opacity() } else { 255 }, content: CelContentM::Image { w: cw, h: ch, pixels: px }, ud: None });
             }
             sp.layers.push(l);
         }
         let mut r2 = Rng::new(i);
         let mut v = Variation::none();
         v.default_storage = if i % 2 == 0 { Storage::Raw } else { Storage::Zlib(6) };
-        let (bytes, _) = encode(&compile(&sp, &mut r2, &v));
+        let mut spec = compile(&sp, &mut r2, &v);
+        if late_layers {
+            // move the layer chunks of layers split.. from frame 0 to the front of frame 1 (keeping their order)
+            let split = 1 + rng.usize_below(n - 1);
+            let mut seen = 0usize;
+            let mut moved: Vec<ChunkItem> = Vec::new();
+            let mut kept: Vec<ChunkItem> = Vec::new();
+            for c in std::mem::take(&mut spec.frames[0].chunks) {
+                if matches!(c.spec, ChunkSpec::Layer { .. }) {
+                    seen += 1;
+                    if seen > split {
+                        moved.push(c);
+                        continue;
+                    }
+                }
+                kept.push(c);
+            }
+            spec.frames[0].chunks = kept;
+            let tail = std::mem::take(&mut spec.frames[1].chunks);
+            spec.frames[1].chunks = moved;
+            spec.frames[1].chunks.extend(tail);
+        }
+        let (bytes, _) = encode(&spec);
         let mut res = CaseResult::ok(crate::gen::features(&sp), 0, "stacked-forest");
         let flags: Vec<u16> = sp.layers.iter().map(|l| l.flags).collect();
         match load(&bytes) {
@@ -329,14 +375,17 @@ pub fn run(ctx: &Ctx) -> i32 {
                     }
                     res.leaves += 2;
                 }
-                let got = crate::val::Img::from_rgba(&ase.frame(0).image(), true);
-                let want = crate::refrender::render_frame(&sp, 0);
+                let got = crate::val::Img::from_rgba(&ase.frame(cel_frame as u32).image(), true);
+                let want = crate::refrender::render_frame(&sp, cel_frame);
                 if let Some(d) = crate::val::diff(&crate::val::V::Img(got), &crate::val::V::Img(want)) {
-                    let hidden_celled: Vec<usize> = (0..n).filter(|k| !visible[*k] && sp.cels.contains_key(&(0, *k as u16))).collect();
+                    let hidden_celled: Vec<usize> = (0..n).filter(|k| !visible[*k] && sp.cels.contains_key(&(cel_frame, *k as u16))).collect();
                     res.violations.push(Violation::new("hidden-layer-contributes-or-visible-missing|stacked", format!("frame image differs from the composition of the visible layers only: {} (levels {:?} flags {:?}; hidden layers with cels: {:?})", d, levels, flags, hidden_celled)).with_input(&bytes).with_extra(json!({"levels": levels, "flags": flags})));
                 }
                 res.leaves += w as u64 * h as u64;
-                res.count("stacked_hidden_celled_layers", (0..n).filter(|k| !visible[*k] && sp.cels.contains_key(&(0, *k as u16))).count() as u64);
+                res.count("stacked_hidden_celled_layers", (0..n).filter(|k| !visible[*k] && sp.cels.contains_key(&(cel_frame, *k as u16))).count() as u64);
+                if late_layers {
+                    res.count("stacked_layer_chunks_across_frames", 1);
+                }
                 res.count("stacked_background_flag_nested", (0..n).filter(|k| levels[*k] > 0 && flags[*k] & 8 != 0).count() as u64);
             }
         }
